@@ -17,13 +17,14 @@ def num_spellings(rng):
             out.append('%s0x%x' % (sign, m))
             out.append('%s0x%X' % (sign, m))
             out.append('%s0b%s' % (sign, bin(m)[2:]))
+            out.append('%s0o%o' % (sign, m))
             out.append('%s0%x' % (sign, m))
             d = '%d' % m
             if len(d) > 3:
                 k = rng.randrange(1, len(d))
                 out.append(sign + d[:k] + '_' + d[k:])
                 out.append(sign + d + '_')
-    out += ['0x', '0b', '0b2', '0xg', '09', '0a', '1a', '1_', '_1', '1__2', '0x-5', '0x+5', '-0x-5', '0b-1', '--1', '+-1', '-', '+',
+    out += ['0x', '0b', '0o', '0o8', '0o1_7', '0O17', '0o1.5', '0b2', '0xg', '09', '0a', '1a', '1_', '_1', '1__2', '0x-5', '0x+5', '-0x-5', '0b-1', '--1', '+-1', '-', '+',
             '1.', '1.5', '-1.5', '+0.25', '1.5e3', '1.e5', '1.5e', '1.5.2', '0x1.5', '0b1.1', '1_0.5', '0.1_5', '1e5', '1.5E-3', '01.5',
             '00.5', '1.\uff15', '1.5x', '1.inf', '9' * 400 + '.0', '1.' + '0' * 50 + '1', '123456789012345678901234567890.5', '4.9e-324', '2.2250738585072011e-308',
             '1.7976931348623159e308', '0.1', '0.3', '1.0000000000000002', '9007199254740993.0']
@@ -225,6 +226,10 @@ class C16(Prop):
             if cells.has_tag(v):
                 continue
             cs.append('xs limits 4000 - - | push %s | printread' % cells.fmt(v))
+        # non-negative integers printed in every base the printer knows (with its prefix; hex in both letter cases) read back
+        for v in (0, 1, 7, 8, 9, 15, 16, 255, 2 ** 63, 2 ** 64 + 5, I_MAX):
+            for flags in (0x102, 0x108, 0x110, 0x910):
+                cs.append('xs limits 4000 - - | push G(I%x,M(S23666d74=I%x)) | printread' % (v, flags))
         # recorded finding D21: a negative integer printed in hexadecimal does not read back
         cs.append('xs limits 4000 - - | push G(I-1,M(S23666d74=I110)) | printread')
         return cs
